@@ -92,7 +92,10 @@ TReopen ==
   IN
   /\ Ev.e = "reopen"
   /\ cfg' = c2 /\ kv' = newkv
-  /\ floor' = [i \in 1 .. N |-> IF newkv[i].p THEN newkv[i].ts ELSE UZero]
+  \* C12: automatic versions exceed "every timestamp recovered from disk" for the key - also the timestamp of a newest
+  \* generation that recovery read and then dropped because it had expired while the store was closed (the driver
+  \* flushes before it closes, so a key that was present is on the device)
+  /\ floor' = [i \in 1 .. N |-> IF newkv[i].p THEN newkv[i].ts ELSE IF kv[i].p THEN kv[i].ts ELSE UZero]
   /\ pin' = [i \in 1 .. N |-> newkv[i].p /\ NearMax(newkv[i].ts)]
   /\ flags' = (IF bad # {} THEN {"reopen"} ELSE {})
               \cup (IF \E i \in bad : kv[i].exp # UZero THEN {"c11"} ELSE {})
